@@ -14,6 +14,7 @@ import (
 
 	"verif/sim/model"
 	"verif/sim/rng"
+	"verif/sim/val"
 )
 
 // E-CRASH on real files. The parent generates a deterministic history, runs it
@@ -73,6 +74,33 @@ func genCrashProc(job *Job, prop string, seed, idx uint64) *RunOutcome {
 			break
 		}
 	}
+	if e.V == nil && be == "badger-disk" && r.Chance(0.3) {
+		// one operation larger than the (small) badger's transaction size limit: the
+		// unchanged code rejects it as a whole
+		if names := e.M.CollNames(); len(names) > 0 {
+			big := Op{K: "Insert", Coll: names[r.Intn(len(names))]}
+			pad := strings.Repeat("p", 700)
+			for i := 0; i < 1100; i++ {
+				big.Docs = append(big.Docs, val.Wrap(map[string]interface{}{"_id": g.newID(), "x": int64(i), "pad": pad}))
+			}
+			at := r.Intn(len(rf.Ops) + 1)
+			rf.Ops = append(rf.Ops[:at], append([]Op{big}, rf.Ops[at:]...)...)
+			// re-run the history from scratch so that later ops are checked in the new order
+			e.Finish()
+			mb2, _ := MakeBackend("mem-sw-livecur", dir)
+			e2, err2 := NewExec(mb2, dir, rf.IDSeed, ExecOpt{})
+			if err2 == nil {
+				for i := range rf.Ops {
+					op := rf.Ops[i]
+					if !e2.Step(i, &op) {
+						break
+					}
+				}
+				e2.Finish()
+				e = e2
+			}
+		}
+	}
 	e.Finish()
 	if e.V != nil {
 		out.V, out.Stats = e.V, e.Stats
@@ -92,7 +120,7 @@ type crashPoint struct {
 }
 
 // reference run on the simulated disk: model states and per-op call counts.
-func crashReference(rf *RunFile) (states []*model.DB, calls []int, err error) {
+func crashReference(rf *RunFile, skip map[int]bool) (states []*model.DB, calls []int, err error) {
 	dir, err := scratchDir()
 	if err != nil {
 		return nil, nil, err
@@ -107,6 +135,13 @@ func crashReference(rf *RunFile) (states []*model.DB, calls []int, err error) {
 	states = append(states, e.M.Clone())
 	for i := range rf.Ops {
 		op := rf.Ops[i]
+		if skip[i] {
+			// the real backend rejects this operation for capacity (a documented
+			// backend property): it has no effect there
+			calls = append(calls, 0)
+			states = append(states, e.M.Clone())
+			continue
+		}
 		if !e.Step(i, &op) {
 			return nil, nil, fmt.Errorf("reference run violated %s", e.V.Rule)
 		}
@@ -118,12 +153,34 @@ func crashReference(rf *RunFile) (states []*model.DB, calls []int, err error) {
 
 func runCrashProc(rf *RunFile) *RunOutcome {
 	out := &RunOutcome{RF: rf, Stats: NewStats(), NOps: len(rf.Ops)}
-	states, calls, err := crashReference(rf)
+	exe, _ := os.Executable()
+	// baseline: one clean execution on the real backend tells which operations it
+	// rejects for capacity
+	skip := map[int]bool{}
+	{
+		parent, err := scratchDir()
+		if err != nil {
+			out.Trouble = err
+			return out
+		}
+		dataDir := filepath.Join(parent, "db")
+		os.Mkdir(dataDir, 0o755)
+		_, _, werr := spawnCrashWorker(exe, rf, dataDir, crashPoint{op: -1}, 0)
+		os.RemoveAll(parent)
+		if werr != nil {
+			out.Trouble = werr
+			return out
+		}
+		for i := range lastWorkerCaps {
+			skip[i] = true
+			out.Stats.Probes["crashproc-capacity-rejected-op"]++
+		}
+	}
+	states, calls, err := crashReference(rf, skip)
 	if err != nil {
 		out.Trouble = err
 		return out
 	}
-	exe, _ := os.Executable()
 	// crash points
 	var points []crashPoint
 	if p := rf.Cfg["point"]; p != "" {
@@ -212,7 +269,10 @@ func runCrashProc(rf *RunFile) *RunOutcome {
 func workerRunFilePath(dir string) string { return filepath.Join(dir, "run.json") }
 
 // spawn the worker; returns acks and whether it was killed.
+var lastWorkerCaps map[int]bool // ops acknowledged as "failed for backend capacity" by the last worker
+
 func spawnCrashWorker(exe string, rf *RunFile, dataDir string, cp crashPoint, straceN int) (acks int, killed bool, err error) {
+	lastWorkerCaps = map[int]bool{}
 	runPath := filepath.Join(filepath.Dir(dataDir), "run-"+filepath.Base(dataDir)+".json")
 	c := rf.Clone()
 	c.Violation = nil
@@ -257,6 +317,9 @@ func spawnCrashWorker(exe string, rf *RunFile, dataDir string, cp crashPoint, st
 	for sc.Scan() {
 		line := sc.Text()
 		if strings.HasPrefix(line, "ACK ") {
+			if strings.HasSuffix(line, " cap") {
+				lastWorkerCaps[acks] = true
+			}
 			acks++
 		} else if strings.HasPrefix(line, "WORKER-") {
 			bad = line
@@ -455,7 +518,11 @@ func CrashWorkerMain(args []string) int {
 			fmt.Println("WORKER-VIOLATION", e.V.Rule, firstLine(e.V.Msg))
 			return 3
 		}
-		os.Stdout.Write([]byte(fmt.Sprintf("ACK %d\n", i)))
+		if e.OpHitCapacity {
+			os.Stdout.Write([]byte(fmt.Sprintf("ACK %d cap\n", i)))
+		} else {
+			os.Stdout.Write([]byte(fmt.Sprintf("ACK %d\n", i)))
+		}
 	}
 	e.Finish()
 	return 0
